@@ -276,6 +276,13 @@ theorem opR_sim : ∀ op : Op, Sim (opR false op) (specOp op)
   | .stat p => sim_out _ (atPath_sim sim_stat p)
   | .ls p => sim_out _ (atPath_sim sim_ls p)
   | .lsl p => sim_out _ (atPath_sim sim_lsl p)
+  | .dmkdir p k => sim_out _ (atPath_sim (sim_mkdirFinal false false {} k) p)
+  | .rflush => ⟨fun l a h => by simp [opR] at h; simp [opR, specOp, L.view_sync, ← h], fun l e h => by simp [opR] at h⟩
+  | .memfree => by
+      have := sim_out (fun _ : Unit => Out.unit) sim_flush
+      exact ⟨fun l a h => by simpa [opR, specOp, sFlush, mapOut] using this.ok l a h,
+             fun l e h => by simpa [opR, specOp, sFlush, mapOut] using this.err l e h⟩
+  | .reopen => ⟨fun l a h => by simp [opR] at h; simp [opR, specOp, L.node_sync, ← h], fun l e h => by simp [opR] at h⟩
 
 theorem step_refines (s : St) (op : Op) :
     (step false s op).2 = (sstep s.root.view op).2 ∧
